@@ -224,6 +224,10 @@ func (w *World) Project(tr *Track) (res J) {
 	res["wrk"] = w.projWrk(ctx, tr)
 	res["bcn"] = w.projBcn(ctx, tr)
 	res["str"] = w.projStr(ctx)
+	res["vest"] = w.projVest(ctx)
+	if !w.InBlock {
+		res["q"] = w.projSupplyQueries(ctx)
+	}
 	_ = gctx
 	return res
 }
